@@ -18,6 +18,7 @@ import itertools
 import json
 import logging
 import os
+import signal
 
 from lib.verif import coq_list, coq_val, coq_z
 
@@ -42,6 +43,78 @@ def regen(ctx):
 
 
 _STATE = {}
+
+
+# =========================================================================== deterministic event loop
+def run_virtual(coro):
+    """Run a coroutine on an event loop whose clock is virtual: time only advances when the
+    loop has nothing ready and would sleep until its next timer, and then it jumps straight
+    to that timer.  No wall-clock dependence (asyncio.wait_for / execute_command timeouts
+    fire only when the awaited thing really never happens), and a loop that would block
+    forever is reported as a hang instead of being suffered."""
+    loop = asyncio.SelectorEventLoop()
+    clock = [0.0]
+    loop.time = lambda: clock[0]
+    real_select = loop._selector.select
+
+    def select(timeout=None):
+        if timeout is None:
+            raise RuntimeError('hang: nothing ready, no timer pending')
+        if timeout > 0:
+            clock[0] += timeout
+        return real_select(0)
+    loop._selector.select = select
+
+    def on_alarm(signum, frame):
+        raise RuntimeError('watchdog: implementation run exceeded 300 s (synchronous hang)')
+    # backstop against a synchronous endless loop inside the implementation (cannot be
+    # bounded from asyncio); never fires in a run that terminates
+    old_handler = signal.signal(signal.SIGALRM, on_alarm)
+    signal.setitimer(signal.ITIMER_REAL, 300)
+    try:
+        asyncio.set_event_loop(loop)
+        return loop.run_until_complete(coro)
+    finally:
+        signal.setitimer(signal.ITIMER_REAL, 0)
+        signal.signal(signal.SIGALRM, old_handler)
+        try:
+            for t in asyncio.all_tasks(loop):
+                t.cancel()
+            loop.run_until_complete(asyncio.sleep(0))
+        except Exception:
+            pass
+        asyncio.set_event_loop(None)
+        loop.close()
+
+
+# =========================================================================== one Coq evaluation per run
+ALL_MODELS = ['Model.Rfcomm', 'Model.RfcommMux', 'Model.RfcommSm', 'Model.HfpSlc', 'Model.AtSkeleton',
+              'Gen.C20Consts', 'Gen.C20AgSkeleton']
+
+
+class Batch:
+    """Collects the model expressions of all campaigns so that they are evaluated by ONE
+    ctx.coq_eval call (one build-lock acquisition, shards in parallel)."""
+
+    def __init__(self):
+        self.parts = []
+
+    def add(self, exprs, callback):
+        self.parts.append((list(exprs), callback))
+
+    def flush(self, ctx):
+        exprs = [e for part, _ in self.parts for e in part]
+        model = ctx.coq_eval(ALL_MODELS, exprs, shard=24) if exprs else []
+        k = 0
+        for part, cb in self.parts:
+            cb(model[k:k + len(part)])
+            k += len(part)
+        self.parts = []
+
+
+def _flush_if_own(ctx, batch, own):
+    if own:
+        batch.flush(ctx)
 
 
 # =========================================================================== shim
@@ -116,13 +189,13 @@ def classify(pdu: bytes) -> int:
 
 
 def gen_bytes(seed, n):
-    return bytes((seed * 7 + i * 13 + i // 251) % 256 for i in range(n))
+    return bytes((seed * 7 + i * 13 + (i >> 8)) & 255 for i in range(n))
 
 
 def digest(b):
     acc = 0
     for x in b:
-        acc = (acc * 31 + x + 1) % 1000003
+        acc = (acc * 31 + x + 1) & 0xFFFFF
     return (len(b), acc)
 
 
@@ -202,22 +275,23 @@ class Pair:
 
 # =========================================================================== data path
 def gen_data_case(rng, big):
-    mfs_pool = [23, 24, 31, 64, 100, 127, 128, 129, 130, 255, 256, 1000, 2043]
     if big:
-        mfs_pool += [4096, 32766, 32767]
-    l2_pool = [48, 52, 64, 100, 132, 133, 134, 1005, 2048]
-    if big:
-        l2_pool += [32771, 32772, 32773, 65535]
+        # large frames: few frames per case even with a large byte budget
+        mfs_pool = [2043, 4096, 16384, 32766, 32767]
+        l2_pool = [4101, 32771, 32772, 32773, 65535]
+    else:
+        mfs_pool = [23, 24, 31, 64, 100, 127, 128, 129, 130, 255, 256, 1000, 2043]
+        l2_pool = [48, 52, 64, 100, 132, 133, 134, 1005, 2048]
     mtu_i, mtu_r = rng.choice(l2_pool), rng.choice(l2_pool)
     ndlc = rng.choice([1, 1, 2, 2, 3, 4])
     chans = rng.shuffle(list(range(1, 31)))[:ndlc]
     cfg = []
     for ch in chans:
         def pn():
-            m = rng.choice(mfs_pool) if rng.chance(4, 5) else rng.range(23, 32767 if big else 3000)
+            m = rng.choice(mfs_pool) if rng.chance(4, 5) else rng.range(2000 if big else 23, 32767 if big else 3000)
             return (m, rng.range(1, 7))
         cfg.append((ch * 2, pn(), pn()))
-    budget = 150000 if big else 6000
+    budget = 150000 if big else 4000
     labels = []
     total = 0
     for _ in range(rng.range(3, 40)):
@@ -309,7 +383,7 @@ def run_data_impl(case, drain=True):
                  len(pair.ab), len(pair.ba)]
         bad = data_oracle(case, events, written, logs, drained=drain, escaped=pair.escaped)
         return obs, final, labels, bad
-    return asyncio.run(main())
+    return run_virtual(main())
 
 
 def data_oracle(case, events, written, logs, drained, escaped):
@@ -378,13 +452,19 @@ def canon_model_data(m):
     return obs, final, list(bad)
 
 
-def run_data(ctx, cases):
+def run_data(ctx, cases, batch=None):
+    own = batch is None
+    batch = batch or Batch()
     impl = []
     for case in cases:
         obs, final, labels, bad = run_data_impl(case)
         impl.append((obs, final, labels, bad))
     exprs = [data_case_coq(c, r[2]) for c, r in zip(cases, impl)]
-    model = ctx.coq_eval(['Model.Rfcomm', 'Model.RfcommMux', 'Gen.C20Consts'], exprs, shard=12)
+    batch.add(exprs, lambda model: _compare_data(ctx, cases, impl, model))
+    _flush_if_own(ctx, batch, own)
+
+
+def _compare_data(ctx, cases, impl, model):
     for k, (case, (obs, final, labels, bad), m) in enumerate(zip(cases, impl, model)):
         nframes = sum(len(o[0]) + len(o[1]) for o in obs) if obs else 0
         ndata = sum(l[3] for l in labels if l[0] < 2)
@@ -522,7 +602,7 @@ def run_sm_impl(labels, channel=3):
                 t.cancel()
         await asyncio.sleep(0)
         return trace, bad
-    return asyncio.run(main())
+    return run_virtual(main())
 
 
 def sm_oracle(o):
@@ -537,9 +617,15 @@ def sm_oracle(o):
     return None
 
 
-def run_sm(ctx, schedules):
+def run_sm(ctx, schedules, batch=None):
+    own = batch is None
+    batch = batch or Batch()
     exprs = ['sm_trace sm_init ' + coq_list(s, lambda l: '(' + SM_LABELS[l] + ')') for s in schedules]
-    model = ctx.coq_eval(['Model.RfcommSm'], exprs, shard=100)
+    batch.add(exprs, lambda model: _compare_sm(ctx, schedules, model))
+    _flush_if_own(ctx, batch, own)
+
+
+def _compare_sm(ctx, schedules, model):
     for k, (sched, m) in enumerate(zip(schedules, model)):
         trace, bad = run_sm_impl(sched)
         reached = max((o[1] for o in trace), default=-1)
@@ -669,7 +755,7 @@ def run_slc_impl(case):
                 ag.indicator_report_enabled, len(events)]
         bad = slc_oracle(case, ok, hf, ag, cmds, rsps, events, hfp)
         return ok, [cmd_code(c) for c in cmds], hf_o, ag_o, bad
-    return asyncio.run(main())
+    return run_virtual(main())
 
 
 def cmd_code(line):
@@ -731,13 +817,19 @@ def slc_case_coq(case):
     return f'slc_obs {hf} {ag}'
 
 
-def run_slc(ctx, cases):
+def run_slc(ctx, cases, batch=None):
     from bumble import hfp
+    own = batch is None
+    batch = batch or Batch()
     for c in cases:
         # the order in which the real AG iterates its set of supported HF indicators
         c['ag_hf_inds_order'] = [int(i) for i in set(hfp.HfIndicator(i) for i in c['ag_hf_inds'])]
     exprs = [slc_case_coq(c) for c in cases]
-    model = ctx.coq_eval(['Model.HfpSlc'], exprs, shard=100)
+    batch.add(exprs, lambda model: _compare_slc(ctx, cases, model))
+    _flush_if_own(ctx, batch, own)
+
+
+def _compare_slc(ctx, cases, model):
     for k, (case, m) in enumerate(zip(cases, model)):
         ok, sent, hf_o, ag_o, bad = run_slc_impl(case)
         ctx.case(('slc', json.dumps(case, sort_keys=True)), ok and len(sent) > 4,
@@ -848,6 +940,16 @@ def run_ag_impl(lines, features, cmee, chunking=None, isolate=True):
                 self.da, self.db = await self.pair.open(1, (1000, 7), (1000, 7))
                 self.got = bytearray()
                 self.da.sink = self.got.extend
+                # step budget: a reader that never consumes a line would answer it for ever
+                self.nwrites = 0
+                dlc_write = self.db.write
+
+                def counted_write(data):
+                    self.nwrites += 1
+                    if self.nwrites > 5000:
+                        raise RuntimeError('step budget: the AG keeps writing responses to one line')
+                    return dlc_write(data)
+                self.db.write = counted_write
                 conf = hfp.AgConfiguration(
                     [hfp.AgFeature(f) for f in features],
                     [hfp.AgIndicatorState.call(), hfp.AgIndicatorState.callsetup(), hfp.AgIndicatorState.signal()],
@@ -864,6 +966,7 @@ def run_ag_impl(lines, features, cmee, chunking=None, isolate=True):
                 return self
 
             async def feed(self, raw):
+                self.nwrites = 0
                 n = len(self.got)
                 e0 = len(self.pair.escaped)
                 data = raw + b'\r'
@@ -894,10 +997,18 @@ def run_ag_impl(lines, features, cmee, chunking=None, isolate=True):
         rs, esc = await ses.feed(b'AT+CMEE=0')
         alive = [r for r in rs if is_final(r)] == ['OK']
         return out, alive, bytes(ses.ag.read_buffer)
-    return asyncio.run(main())
+    return run_virtual(main())
 
 
-def run_ag(ctx, rng):
+def run_ag(ctx, rng, batch=None):
+    own = batch is None
+    batch = batch or Batch()
+    exprs = ['map (fun h => (h_min h, h_max h, line_ok (ag_line (h_body h)))) ag_handlers']
+    batch.add(exprs, lambda model: _run_ag(ctx, rng, model))
+    _flush_if_own(ctx, batch, own)
+
+
+def _run_ag(ctx, rng, model):
     from bumble import hfp
     import re
     handlers = _STATE.get('handlers')
@@ -914,8 +1025,6 @@ def run_ag(ctx, rng):
     if not ctx.quick():
         configs += [([f for f in hfp.AgFeature], True), ([hfp.AgFeature.THREE_WAY_CALLING], False)]
     # model: arity of every handler, and whether its dispatch passes the exactly-one check
-    exprs = ['map (fun h => (h_min h, h_max h, line_ok (ag_line (h_body h)))) ag_handlers']
-    model = ctx.coq_eval(['Model.AtSkeleton', 'Gen.C20AgSkeleton'], exprs)
     mar = {h[0]: (m[0], (m[1][1] if isinstance(m[1], tuple) else None)) for h, m in zip(handlers, model[0])}
     if mar != arity:
         ctx.disagree('AgProtocol handler arity', None, mar, arity)
@@ -980,7 +1089,8 @@ CORPUS_AG = [
 
 
 # =========================================================================== HF reader (D17a, HF half)
-def run_hf_reader(ctx):
+def hf_reader_impl(junks):
+    """after a malformed response, a command answered OK must still complete"""
     async def main():
         from bumble import hfp
         pair = Pair(auto=True)
@@ -992,8 +1102,7 @@ def run_hf_reader(ctx):
         got = bytearray()
         db.sink = got.extend
         res = []
-        for junk in (b'\r\n+VGS: (1\r\n', b'\r\n\xff\r\n'):
-            n = len(got)
+        for junk in junks:
             db.write(junk)
             for _ in range(8):
                 await asyncio.sleep(0)
@@ -1007,7 +1116,11 @@ def run_hf_reader(ctx):
             except Exception:
                 res.append((junk, False))
         return res
-    for junk, ok in asyncio.run(main()):
+    return run_virtual(main())
+
+
+def run_hf_reader(ctx):
+    for junk, ok in hf_reader_impl([b'\r\n+VGS: (1\r\n', b'\r\n\xff\r\n', b'\r\n+CIND: ("a",(0\r\n']):
         ctx.case(('hfreader', junk), True, None)
         ctx.count('hfreader.cases')
         if not ok:
@@ -1016,11 +1129,11 @@ def run_hf_reader(ctx):
 
 
 # =========================================================================== end to end
-def run_e2e(ctx, rng, n):
-    """real rfcomm.Client / Server (+ HFP) over classic L2CAP between two Devices on a LocalLink"""
-    async def one(mfs_i, cr_i, mfs_r, cr_r, l2_mtu, sizes):
+def e2e_impl(mfs_i, cr_i, mfs_r, cr_r, l2_mtu, sizes):
+    """real rfcomm.Client / Server over classic L2CAP between two Devices on a LocalLink"""
+    async def one():
         from tests.test_utils import TwoDevices
-        from bumble import rfcomm, hfp
+        from bumble import rfcomm
         devices = TwoDevices()
         await devices.setup_connection()
         acc = asyncio.get_running_loop().create_future()
@@ -1046,7 +1159,6 @@ def run_e2e(ctx, rng, n):
                 break
             await asyncio.sleep(0)
         ok_stream = (got_i == want_i and got_r == want_r)
-        # teardown
         closed = []
         dlc_r.on('close', lambda: closed.append('r'))
         dlc_i.on('close', lambda: closed.append('i'))
@@ -1055,22 +1167,31 @@ def run_e2e(ctx, rng, n):
             await asyncio.sleep(0)
         states = (dlc_i.state.name, dlc_r.state.name, sorted(closed))
         return ok_stream, len(want_i) + len(want_r), states
+    return run_virtual(one())
+
+
+def e2e_verdicts(rep):
+    ok_stream, nbytes, states = e2e_impl(rep['mfs_i'], rep['cr_i'], rep['mfs_r'], rep['cr_r'], rep['l2'], rep['sizes'])
+    out = []
+    if not ok_stream:
+        out.append(('rfcomm:e2e-stream', f'two-device RFCOMM: bytes received differ from bytes written ({rep})'))
+    if states != ('DISCONNECTED', 'DISCONNECTED', ['i', 'r']):
+        out.append(('rfcomm:teardown', f'two-device RFCOMM: after disconnect() the data link states are {states}'))
+    return out, nbytes
+
+
+def run_e2e(ctx, rng, n):
     for k in range(n):
-        mfs_i = rng.choice([23, 127, 128, 1000, 2000])
-        mfs_r = rng.choice([23, 127, 128, 1000, 2000])
-        cr_i, cr_r = rng.range(1, 7), rng.range(1, 7)
-        l2 = rng.choice([48, 256, 2048])
-        sizes = [rng.choice([1, 22, 23, 24, 500, 3000]) for _ in range(rng.range(2, 6))]
-        ok_stream, nbytes, states = asyncio.run(one(mfs_i, cr_i, mfs_r, cr_r, l2, sizes))
-        ctx.case(('e2e', mfs_i, cr_i, mfs_r, cr_r, l2, sizes), True,
-                 {'kind': 'e2e', 'mfs': [mfs_i, mfs_r], 'credits': [cr_i, cr_r], 'l2cap_mtu': l2, 'sizes': sizes} if k == 0 else None)
+        rep = {'kind': 'e2e', 'mfs_i': rng.choice([23, 127, 128, 1000, 2000]), 'cr_i': rng.range(1, 7),
+               'mfs_r': rng.choice([23, 127, 128, 1000, 2000]), 'cr_r': rng.range(1, 7),
+               'l2': rng.choice([48, 256, 2048]),
+               'sizes': [rng.choice([1, 22, 23, 24, 500, 3000]) for _ in range(rng.range(2, 6))]}
+        bad, nbytes = e2e_verdicts(rep)
+        ctx.case(('e2e', json.dumps(rep, sort_keys=True)), True, rep if k == 0 else None)
         ctx.count('e2e.cases')
         ctx.count('e2e.bytes', nbytes)
-        rep = {'kind': 'e2e', 'mfs_i': mfs_i, 'cr_i': cr_i, 'mfs_r': mfs_r, 'cr_r': cr_r, 'l2': l2, 'sizes': sizes}
-        if not ok_stream:
-            ctx.violation('rfcomm:e2e-stream', f'two-device RFCOMM: bytes received differ from bytes written ({rep})', rep)
-        if states != ('DISCONNECTED', 'DISCONNECTED', ['i', 'r']):
-            ctx.violation('rfcomm:teardown', f'two-device RFCOMM: after disconnect() the data link states are {states}', rep)
+        for sig, what in bad:
+            ctx.violation(sig, what, rep)
 
 
 # =========================================================================== corpus
@@ -1122,13 +1243,14 @@ def run(ctx):
     # ---- data path
     cases = [_case_from_json(c['replay']['case']) for c in corpus if c['replay']['kind'] == 'data']
     r = rng.fork('data')
-    for i in range(ctx.n(140, 2500)):
-        cases.append(gen_data_case(r, big=(i % 10 == 0)))
-    run_data(ctx, cases)
+    for i in range(ctx.n(90, 2500)):
+        cases.append(gen_data_case(r, big=(i % 8 == 0)))
+    batch = Batch()
+    run_data(ctx, cases, batch)
     # ---- set-up / teardown
     scheds = [c['replay']['labels'] for c in corpus if c['replay']['kind'] == 'sm']
     r = rng.fork('sm')
-    for _ in range(ctx.n(300, 6000)):
+    for _ in range(ctx.n(200, 6000)):
         scheds.append(gen_sm_schedule(r, r.choice([6, 12, 20, 30, 45])))
     if not ctx.quick():
         # every schedule of length 7 after the connection is up over the five interesting labels
@@ -1136,7 +1258,7 @@ def run(ctx):
         for seq in itertools.product([2, 3, 4, 8, 9], repeat=6):
             scheds.append(base + list(seq) + [8, 9, 8, 9, 8, 9])
         ctx.extra['exhaustive_sm_suffix_depth'] = 6
-    run_sm(ctx, scheds)
+    run_sm(ctx, scheds, batch)
     # ---- HFP SLC
     slc_cases = [c['replay']['case'] for c in corpus if c['replay']['kind'] == 'slc']
     r = rng.fork('slc')
@@ -1144,14 +1266,15 @@ def run(ctx):
         for hb in range(8):
             for ab in range(8):
                 slc_cases.append(gen_slc_case(r, hb, ab))
-    run_slc(ctx, slc_cases)
+    run_slc(ctx, slc_cases, batch)
     # ---- AG final result codes
     for c in corpus:
         if c['replay']['kind'] == 'ag':
             replay_one(ctx, c['replay'], report=True)
             ctx.case(('corpus', json.dumps(c['replay'], sort_keys=True)), True, None)
             ctx.count('ag.corpus')
-    run_ag(ctx, rng.fork('ag'))
+    run_ag(ctx, rng.fork('ag'), batch)
+    batch.flush(ctx)
     run_hf_reader(ctx)
     # ---- end to end
     run_e2e(ctx, rng.fork('e2e'), ctx.n(4, 40))
@@ -1220,9 +1343,14 @@ def replay_one(ctx, r, report=False):
             verdict = f'AG wedged, read buffer {leftover[:40]!r}'
             sig = 'ag:session:wedged'
     elif r['kind'] == 'hfreader':
-        verdict = None
+        junk = bytes.fromhex(r['junk'])
+        if not hf_reader_impl([junk])[0][1]:
+            verdict = f'HfProtocol: after the malformed response {junk!r} a command answered OK never completes'
+            sig = 'hf:reader'
     elif r['kind'] == 'e2e':
-        verdict = None
+        bad, _ = e2e_verdicts(r)
+        if bad:
+            sig, verdict = bad[0]
     if report and verdict:
         ctx.violation(sig, verdict, r)
     return verdict
